@@ -21,7 +21,7 @@ def run(rep: Report, repo: Repo):
         'table of mv_transition evaluated by engine A against the documented transition semantics; grammar/transformer agreement for '
         'the STIL grammar.')
     rep.trusted = ['lark LALR compilation of the grammar constant', 'algebra conventions of logic.py (C12/C15)']
-    rep.assumptions = ['NOT DECIDED: placement of each character for arbitrary chains and pattern sets; launch/capture call sequencing; signal-group order']
+    rep.assumptions = ['BOUNDED: scan maps and inversions are decided for all chains of <= 5 entries (C18.maps), pattern extraction for one fixture text (C18.extract); tests / tests_loc / responses beyond their twin structure are NOT decided']
     mod = repo.mod('stil')
     evaluated = False
     try:
